@@ -4,6 +4,7 @@ import (
 	"fmt"
 	"go/ast"
 	"go/token"
+	"go/types"
 	"strings"
 
 	"golang.org/x/tools/go/ssa"
@@ -334,5 +335,151 @@ func RFoldSib(c *core.Ctx) {
 	}
 	if n == 0 {
 		c.Anchor("conditional calls of addCaseEquivalences")
+	}
+}
+
+// ---------------------------------------------------------------------------
+// R-LETTERRANGE: a range test that starts at 'A', 'a' or '0' ends at 'Z', 'z'
+// or '9'.  Interval abstraction of the guard:
+//   L <= x && x <= H   (any orientation, strict or not)      -> [L, H]
+//   x < L || x > H                                           -> complement of [L, H]
+//   uint32(x-L) < K  /  <= K    (the single-compare idiom)   -> [L, L+K-1] / [L, L+K]
+// An ASCII case fold whose range stops at 'Y' leaves 'Z' unfolded.
+// ---------------------------------------------------------------------------
+
+func RLetterRange(c *core.Ctx) {
+	c.Rule("R-LETTERRANGE", "every range test in the module whose lower end is the constant 'A', 'a' or '0' (conjunction or negated disjunction of two comparisons on the same expression, or the unsigned single-compare idiom uint(x-L) < K) has the inclusive upper end 'Z', 'z' or '9' (or '7': octal digits) respectively", 3)
+	p := c.P
+	want := map[int64]int64{'A': 'Z', 'a': 'z', '0': '9'}
+	also := map[int64]int64{'0': '7'} // octal digits
+	n := 0
+	for _, pk := range p.ModulePkgs() {
+		info := pk.TypesInfo
+		for _, fd := range p.FuncDecls(pk) {
+			if fd.Body == nil || p.IsTestFile(fd.Pos()) {
+				continue
+			}
+			name := core.DeclName(pk, fd)
+			cnt := 0
+			// bound(e): (exprText, lowInclusive?, value, isLower) for one comparison against a constant
+			type bnd struct {
+				x     string
+				lower bool
+				v     int64
+			}
+			one := func(e ast.Expr, negate bool) (bnd, bool) {
+				be, ok := ast.Unparen(e).(*ast.BinaryExpr)
+				if !ok {
+					return bnd{}, false
+				}
+				l, r, op := be.X, be.Y, be.Op
+				if _, isC := core.ConstInt(info, l); isC {
+					l, r = r, l
+					switch op {
+					case token.LSS:
+						op = token.GTR
+					case token.GTR:
+						op = token.LSS
+					case token.LEQ:
+						op = token.GEQ
+					case token.GEQ:
+						op = token.LEQ
+					}
+				}
+				k, isC := core.ConstInt(info, r)
+				if !isC {
+					return bnd{}, false
+				}
+				if negate {
+					switch op {
+					case token.LSS:
+						op = token.GEQ
+					case token.GTR:
+						op = token.LEQ
+					case token.LEQ:
+						op = token.GTR
+					case token.GEQ:
+						op = token.LSS
+					default:
+						return bnd{}, false
+					}
+				}
+				x := types.ExprString(ast.Unparen(l))
+				switch op {
+				case token.GEQ:
+					return bnd{x, true, k}, true
+				case token.GTR:
+					return bnd{x, true, k + 1}, true
+				case token.LEQ:
+					return bnd{x, false, k}, true
+				case token.LSS:
+					return bnd{x, false, k - 1}, true
+				}
+				return bnd{}, false
+			}
+			report := func(pos token.Pos, lo, hi int64, how string) {
+				w, ok := want[lo]
+				if !ok {
+					return
+				}
+				cnt++
+				n++
+				c.Visit(name)
+				c.Check(hi == w || (also[lo] != 0 && hi == also[lo]), fmt.Sprintf("%s / range test #%d starting at %q ends at %q", name, cnt, rune(lo), rune(w)), pos,
+					"the test (%s) covers %q..%q: %q is left out / an extra character is let in", how, rune(lo), rune(hi), rune(w))
+			}
+			ast.Inspect(fd.Body, func(x ast.Node) bool {
+				be, ok := x.(*ast.BinaryExpr)
+				if !ok {
+					return true
+				}
+				switch be.Op {
+				case token.LAND, token.LOR:
+					a, ok1 := one(be.X, be.Op == token.LOR)
+					b, ok2 := one(be.Y, be.Op == token.LOR)
+					if ok1 && ok2 && a.x == b.x && a.lower != b.lower {
+						lo, hi := a.v, b.v
+						if !a.lower {
+							lo, hi = b.v, a.v
+						}
+						how := "conjunction"
+						if be.Op == token.LOR {
+							how = "negated disjunction"
+						}
+						report(be.Pos(), lo, hi, how)
+					}
+				case token.LSS, token.LEQ:
+					// uintN(x - L) < K
+					call, ok := ast.Unparen(be.X).(*ast.CallExpr)
+					if !ok || len(call.Args) != 1 {
+						return true
+					}
+					if tv, ok := info.Types[call.Fun]; !ok || !tv.IsType() {
+						return true
+					}
+					if bt, ok := info.TypeOf(call).Underlying().(*types.Basic); !ok || bt.Info()&types.IsUnsigned == 0 {
+						return true
+					}
+					sub, ok := ast.Unparen(call.Args[0]).(*ast.BinaryExpr)
+					if !ok || sub.Op != token.SUB {
+						return true
+					}
+					l, ok1 := core.ConstInt(info, sub.Y)
+					k, ok2 := core.ConstInt(info, be.Y)
+					if !ok1 || !ok2 {
+						return true
+					}
+					hi := l + k
+					if be.Op == token.LSS {
+						hi--
+					}
+					report(be.Pos(), l, hi, "unsigned single compare")
+				}
+				return true
+			})
+		}
+	}
+	if n == 0 {
+		c.Anchor("range tests starting at 'A', 'a' or '0'")
 	}
 }
